@@ -1,5 +1,6 @@
 """C18: recipients."""
 BIN = "c18"
+DISAGREEMENT_IS_FAILURE = True
 
 def expected(case, mout):
     if mout and mout.startswith("F"):
